@@ -83,6 +83,25 @@ check("C19",
       "(and refutes the '>' tie-break), and judges every recorded call of categorize, tag, split_url_events and simplify_string.",
       "Trusted: TLC; the regex engine, urlparse and the title regexes are not modelled (regex = one literal word; only the frame relation is decided for split_url_events / simplify_string).",
       "TLA+ relational spec + TLC model checking of the algorithm transcription + TLC validation of recorded I/O", "DESIGN.md §6 C19")
+check("C11",
+      "spec/AwQuery.tla defines the abstract syntax, its text in three spacing styles (Show) and its meaning (Run: value flow through literals, variables, lists, dicts and arguments, and the log of "
+      "built-in applications in evaluation order with their argument values; nop/concat/limit_events on call-free values are computed). TLC enumerates well-formed programs from the grammar "
+      "(AwQueryGen), the harness runs each text through aw_query.query with every registered built-in wrapped by a recorder, and TLC judges result and application log of every execution against Run "
+      "(ExecClause) and across spacing styles.",
+      "Trusted: TLC, the rendering of named characters, the recorder's projection of values (identity of opaque results). What each built-in computes is decided by C03..C19, not here.",
+      "TLA+ spec of syntax+semantics, TLC program generation, TLC trace validation of recorded interpreter executions", "DESIGN.md §6 C11")
+check("C12",
+      "Query is specified as an action with UNCHANGED buckets; every generated program that reads buckets (all built-ins incl. in-place annotating ones, nested, multi-statement, and single-fault programs that raise "
+      "midway) is run on memory/sqlite/peewee between two full dumps which TLC compares; query_bucket / query_bucket_eventcount are judged by the read predicates of AwReads for the query window and against direct "
+      "windowed reads for random contents and windows.",
+      "Trusted: TLC, the textual dump (listing, metadata, get(-1)); Tol = 2 ms as in C03.",
+      "TLA+ spec + TLC program generation + TLC validation of recorded dumps and reads", "DESIGN.md §6 C12")
+check("C17",
+      "The interpreter's outcome classes are specified in AwQueryTrace (value, parse / interpret / function error, anything else escaping from parsing or name/arity/type resolution is inadmissible, so is non-termination). "
+      "TLC generates single-fault programs with the family the property names for each fault and malformed texts; the harness adds every single-character corruption of sampled valid programs and every string of "
+      "length <= 3 (thorough 4) over a 16-symbol alphabet in 7 contexts; every recorded outcome is judged by TLC.",
+      "Trusted: TLC; stage attribution by the innermost traceback frame; 5 s alarm as the termination bound. Exceptions raised inside a built-in's own computation are not judged; a lenient parser may accept malformed text.",
+      "TLA+ outcome spec + TLC fault generation + exhaustive short-string enumeration judged by TLC", "DESIGN.md §6 C17")
 
 
 def build():
